@@ -110,6 +110,31 @@ func (s *server) OnBoot(eng gnet.Engine) gnet.Action {
 	// API probes while booting (the handle exists, the loops are not registered yet)
 	s.probe("booting")
 	defer close(s.booted)
+	if hammer { // C05: the concurrency-safe API from foreign goroutines, from the earliest possible moment
+		go func() {
+			for i := 0; atomic.LoadInt32(&s.returned) == 0; i++ {
+				_ = eng.CountConnections()
+				_ = eng.Validate()
+				if fd, err := eng.Dup(); err == nil {
+					_ = closeFd(fd)
+				}
+				if i%8 == 0 && hammerAddr != nil {
+					if ch, err := eng.Register(gnet.NewNetAddrContext(context.Background(), hammerAddr)); err == nil {
+						go func() {
+							select {
+							case r := <-ch:
+								if r.Conn != nil {
+									_ = r.Conn.Close()
+								}
+							case <-time.After(2 * time.Second):
+							}
+						}()
+					}
+				}
+				time.Sleep(20 * time.Microsecond)
+			}
+		}()
+	}
 	if s.sc.source == "boot" {
 		return gnet.Shutdown
 	}
@@ -130,6 +155,26 @@ func (s *server) OnOpen(c gnet.Conn) ([]byte, gnet.Action) {
 	}
 	s.mu.Unlock()
 	s.log("open", key(c))
+	if hammer {
+		go func() {
+			for i := 0; i < 20 && atomic.LoadInt32(&s.returned) == 0; i++ {
+				_ = c.AsyncWrite([]byte("a"), nil)
+				_ = c.Wake(nil)
+				c.SetSafeContext(i)
+				_ = c.SafeContext()
+				_ = c.Fd()
+				_ = c.SetNoDelay(true)
+				if fd, err := c.Dup(); err == nil {
+					_ = closeFd(fd)
+				}
+				_ = c.EventLoop().Execute(context.Background(), runnable{})
+				time.Sleep(50 * time.Microsecond)
+			}
+			if key(c)[len(key(c))-2]%2 == 0 {
+				_ = c.Close()
+			}
+		}()
+	}
 	if s.sc.source == "open" && atomic.CompareAndSwapInt32(&s.trigger, 0, 1) {
 		return nil, gnet.Shutdown
 	}
@@ -168,7 +213,10 @@ func (s *server) OnClose(c gnet.Conn, err error) gnet.Action {
 
 func (s *server) OnTick() (time.Duration, gnet.Action) {
 	s.log("tick", "")
-	if s.sc.source == "tick" && len(s.opened) >= s.sc.nconn && atomic.CompareAndSwapInt32(&s.trigger, 0, 1) {
+	s.mu.Lock()
+	nopen := len(s.opened)
+	s.mu.Unlock()
+	if s.sc.source == "tick" && nopen >= s.sc.nconn && atomic.CompareAndSwapInt32(&s.trigger, 0, 1) {
 		return 5 * time.Millisecond, gnet.Shutdown
 	}
 	return 5 * time.Millisecond, gnet.None
@@ -220,6 +268,33 @@ func probeEngine(log func(kind, arg string), st string, eng gnet.Engine) {
 func (s *server) probe(st string) { probeEngine(s.log, st, s.eng) }
 
 var sockSeq int
+var hammer = os.Getenv("VERIF_HAMMER") == "1"
+var hammerAddr net.Addr
+
+func init() {
+	if !hammer {
+		return
+	}
+	// a throw-away TCP server as the target of Register calls
+	l, err := net.Listen("tcp", "127.0.0.1:0")
+	if err != nil {
+		return
+	}
+	hammerAddr = l.Addr()
+	go func() {
+		for {
+			c, err := l.Accept()
+			if err != nil {
+				return
+			}
+			go func() { time.Sleep(50 * time.Millisecond); c.Close() }()
+		}
+	}()
+}
+
+type runnable struct{}
+
+func (runnable) Run(context.Context) error { return nil }
 
 // quiet swallows the framework's log output (it would go to stdout)
 type quiet struct{}
